@@ -45,7 +45,7 @@ package serverless
 //@   modifies heap
 //@   ensures[C19.s] true
 //@   // every request carries the caller's context (so that it ends when the cycle does)
-//@   ensures[C19.ctx,C13.ctx] ctx != noCtx() ==> n_noctx == old(n_noctx)
+//@   ensures[C19.ctx,C13.ctx] ctx != noCtx() && ctx != todoCtx() ==> n_noctx == old(n_noctx)
 //@   ensures[C19.ctx,C13.ctx] n_do == old(n_do) + 1 ==> do_ctx == ctx
 
 // returned fetcher (captures root, get)
